@@ -30,6 +30,7 @@ fixed = [
  ("F22", "C04", "e1e33f2", "Sort.commute moved a new sort upstream of an existing sort: final order decided by the old sort; also C03"),
  ("F23", "C04", "3fe3523", "PartialJoin.commute moved a join beneath a projection hiding a column that the fixed operand also has"),
  ("F29", "C03", "249999f", "an operation with preferred_engine applied to a tree returned by process(): backtracking that fails below a payload-carrying Transfer made reapply() return a payload-less copy, so the half-commuted operation (e.g. a widened Projection) was installed: +[y](Π[c,e,y](→[it](L0))) cannot be evaluated"),
+ ("F30", "C14", "d360695", "process() output ending in a round trip it->it2->it (empty chain branch pruned): rel.transferred_to(rel.engine) returned the leaf upstream of the round trip instead of rel itself"),
  ("F27", "C08", "149b8d5", "identity_in_sql.join(rel_in_iteration) accepted: Select marker around an iteration-engine relation; process() AssertionError in Select.reapply; also C20 (engine mismatch not rejected), C14"),
  ("F26", "C14", "8ebe476", "sql_rel.transferred_to(sql) returned a new Select around sql_rel (not the relation itself), burying an un-sliced sort; found through C08 (order-loss error raised only by process())"),
 ]
